@@ -458,6 +458,8 @@ def readers_case(rep, r, t, v, label):
             sig = 'leak-%s-%s' % (type(e).__name__, name.split('-')[0])
             if isinstance(e, OverflowError) and default_mentions_real(t):
                 sig = 'T12-real-default-through-float'
+            elif isinstance(e, OverflowError) and contains_real(t) and name.startswith('eq'):
+                sig = 'T12-real-compared-through-float'
             rep.fail(sig, 'read-only use %s at %s raised %s: %s' % (name, list(path), type(e).__name__, e),
                      dict(replay, reader=name, path=list(path)))
             return
